@@ -44,6 +44,7 @@ type jpt = [2]int64
 type jquery struct {
 	T      int64     `json:"t"`
 	Asc    bool      `json:"asc"`
+	Order  [][2]int64 `json:"impl_seeks_order"` // c.seeks after sort.Sort: (file index, entry min time)
 	Scalar [][]jpt   `json:"impl_scalar"`
 	Array  [][]jpt   `json:"impl_array"`
 }
@@ -99,9 +100,16 @@ func s2i(s string) int64 {
 }
 
 // drain runs one cursor to exhaustion with the scalar (arr=false) or array (arr=true) form.
-func drain(fs *tsm1.FileStore, typ int, t int64, asc, arr bool, limit int) (blocks [][]jpt, hang bool, err error) {
+func drain(fs *tsm1.FileStore, typ int, t int64, asc, arr bool, limit int) (blocks [][]jpt, order [][2]int64, hang bool, err error) {
 	kc := fs.KeyCursor(context.Background(), []byte(mainKey), t, asc)
 	defer kc.Close()
+	order = [][2]int64{}
+	paths, mins, _ := kc.VerifSeeks()
+	for i, p := range paths {
+		gen, _, perr := tsm1.DefaultParseFileName(p)
+		must(perr)
+		order = append(order, [2]int64{int64(gen - 1), mins[i]})
+	}
 	var fb []tsm1.FloatValue
 	var ib []tsm1.IntegerValue
 	var ub []tsm1.UnsignedValue
@@ -110,7 +118,7 @@ func drain(fs *tsm1.FileStore, typ int, t int64, asc, arr bool, limit int) (bloc
 	fa, ia, ua, sa, ba := &tsdb.FloatArray{}, &tsdb.IntegerArray{}, &tsdb.UnsignedArray{}, &tsdb.StringArray{}, &tsdb.BooleanArray{}
 	for it := 0; ; it++ {
 		if it > limit {
-			return blocks, true, nil
+			return blocks, order, true, nil
 		}
 		var blk []jpt
 		switch {
@@ -186,10 +194,10 @@ func drain(fs *tsm1.FileStore, typ int, t int64, asc, arr bool, limit int) (bloc
 			}
 		}
 		if err != nil {
-			return blocks, false, err
+			return blocks, order, false, err
 		}
 		if len(blk) == 0 {
-			return blocks, false, nil
+			return blocks, order, false, nil
 		}
 		blocks = append(blocks, blk)
 		kc.Next()
@@ -323,7 +331,14 @@ func run(w *vh.W, c *jcase) {
 				var blocks [][]jpt
 				var hang bool
 				var err error
-				p := vh.Guard(func() { blocks, hang, err = drain(fs, c.Typ, t, asc, arr, limit) })
+				var order [][2]int64
+				p := vh.Guard(func() { blocks, order, hang, err = drain(fs, c.Typ, t, asc, arr, limit) })
+				if !arr || q.Order == nil {
+					q.Order = order
+				}
+				if q.Order == nil {
+					q.Order = [][2]int64{}
+				}
 				form := map[bool]string{false: "Read" + typNames[c.Typ] + "Block", true: "Read" + typNames[c.Typ] + "ArrayBlock"}[arr]
 				switch {
 				case p != "":
@@ -343,8 +358,12 @@ func run(w *vh.W, c *jcase) {
 				}
 			}
 			c.Qs = append(c.Qs, q)
-			qterms = append(qterms, fmt.Sprintf("{| q_t := %s; q_asc := %s; q_scalar := %s; q_array := %s |}",
-				vh.Z(t), vh.Bool(asc), blocksTerm(q.Scalar), blocksTerm(q.Array)))
+			ord := make([]string, len(q.Order))
+			for i, o := range q.Order {
+				ord[i] = "(" + vh.Nat(int(o[0])) + ", " + vh.Z(o[1]) + ")"
+			}
+			qterms = append(qterms, fmt.Sprintf("{| q_t := %s; q_asc := %s; q_order := %s; q_scalar := %s; q_array := %s |}",
+				vh.Z(t), vh.Bool(asc), vh.List(ord), blocksTerm(q.Scalar), blocksTerm(q.Array)))
 		}
 	}
 
@@ -384,6 +403,11 @@ func run(w *vh.W, c *jcase) {
 	// Known boundary defect (never generated; reachable only through an explicit -replay): a seek at
 	// MinInt64 (ascending) / MaxInt64 (descending) makes t-1 / t+1 wrap in FileStore.locations.
 	sig := ""
+	if nblocks > 12 {
+		// Known defect, shape decided from the input: more than 12 blocks of the key, so sort.Sort is pdqsort
+		// and the non-transitive Less may leave overlapping blocks out of generation order.
+		sig = "over-12-locations-sort-breaks-newest-wins"
+	}
 	for _, t := range c.Seeks {
 		if t == math.MinInt64 || t == math.MaxInt64 {
 			sig = "seek-at-int64-extreme-wraps"
@@ -392,7 +416,11 @@ func run(w *vh.W, c *jcase) {
 	w.Add(term, c, overlapPairs > 0 || len(c.Dels) > 0, sig)
 	w.Count("type", typNames[c.Typ])
 	w.Count("files", fmt.Sprint(len(c.Files)))
-	w.Count("locations(blocks)", fmt.Sprint(nblocks))
+	if nblocks > 12 {
+		w.Count("locations(blocks)", ">12 (outside the insertion-sort model)")
+	} else {
+		w.Count("locations(blocks)", fmt.Sprint(nblocks))
+	}
 	w.Count("deletes", fmt.Sprint(len(c.Dels)))
 	w.Count("overlapping_block_pairs", bucket(overlapPairs))
 	w.Count("timestamps_in_several_files", bucket(dupTs))
@@ -673,7 +701,9 @@ func main() {
 		"(some snapped to a block's exact range, some reaching MinInt64/MaxInt64), an optional second key widening the file time range; " +
 		"queries: up to 12 seek times (block and tombstone boundaries +-1, MinNanoTime, MaxNanoTime; MinInt64 itself is never used: t-1 wraps in locations) " +
 		"x both directions, each drained with Read<T>Block+Next and Read<T>ArrayBlock+Next; value type rotates over the five types. " +
-		"Hand-picked layouts come first; the thorough tier (n>=3000) adds every layout of 2 files over timestamps {0..3} with at most one delete range " +
+		"One generated layout in eight is deliberately OUTSIDE that limit (13-30 blocks, known-finding shape over-12-locations-sort-breaks-newest-wins): there the mirror runs on the seeks order the real sort produced " +
+		"(reported through the verif-only accessor KeyCursor.VerifSeeks) and the oracle decides. For <=12 locations the reported order must equal the model's insertion sort. " +
+		"Hand-picked layouts come first; the thorough tier adds every layout of 2 files over timestamps {0..3}, of 2 files over {0..2} with at most one delete range " +
 		"and of 3 files over {0..2}. Non-trivial: blocks of different files overlap in time or a delete applies. Distinct: distinct Gallina terms."
 	var err error
 	base := ""
@@ -701,17 +731,64 @@ func main() {
 			run(w, &c)
 		}
 	}
-	if w.N >= 3000 {
-		n := exhaustive(w, 2, 4, true, 1)
+	if w.N >= 2500 {
+		n := exhaustive(w, 2, 4, false, 1)
+		n += exhaustive(w, 2, 3, true, 2)
 		n += exhaustive(w, 3, 3, false, 0)
 		w.Extra["exhaustive_layouts"] = n
-		w.Extra["exhaustive_note"] = "all layouts of 2 files over timestamps {0..3} x (no delete | one delete range on one file) and of 3 files over {0..2}, all seeks -1..D, both directions, scalar and array: a SEARCH for a counterexample to the full statement (a test, not a proof)"
+		w.Extra["exhaustive_note"] = "all layouts of 2 files over timestamps {0..3}, of 2 files over {0..2} x (no delete | one delete range on one file) and of 3 files over {0..2}, all seeks -1..D, both directions, scalar and array: a SEARCH for a counterexample to the full statement on the real code (a test, not a proof)"
 	}
 	for k := 0; w.Len() < w.N; k++ {
-		c := genLayout(w, k)
+		var c jcase
+		if k%8 == 7 {
+			c = genBig(w, k)
+		} else {
+			c = genLayout(w, k)
+		}
 		run(w, &c)
 	}
 	w.Extra["max_locations"] = 12
 	w.Finish()
 	os.RemoveAll(tmpRoot)
+}
+
+
+// genBig: MORE than 12 blocks of the key (13-30), spread over 3-6 overlapping files with long gaps so
+// that blocks of one file fit between blocks of another: sort.Sort is then pdqsort and the model only
+// mirrors the cursor on the order the real sort produced (reported through KeyCursor.VerifSeeks).
+func genBig(w *vh.W, k int) jcase {
+	r := w.Rng
+	for {
+		c := jcase{Typ: k % 5}
+		nf := 3 + r.IntN(4)
+		dom := int64(30 + r.IntN(50))
+		total := 0
+		for fi := 0; fi < nf; fi++ {
+			var blocks [][]int64
+			t := int64(r.IntN(10))
+			for t <= dom && len(blocks) < 8 {
+				sz := 1 + r.IntN(4)
+				blk := []int64{}
+				for j := 0; j < sz && t <= dom; j++ {
+					blk = append(blk, t)
+					t += 1 + int64(r.IntN(4))
+				}
+				blocks = append(blocks, blk)
+				if r.IntN(2) == 0 {
+					t += int64(r.IntN(25))
+				}
+			}
+			total += len(blocks)
+			c.Files = append(c.Files, mkFile(c.Typ, fi, blocks))
+		}
+		if total <= 12 || total > 30 {
+			continue
+		}
+		if r.IntN(3) == 0 {
+			a := int64(r.IntN(int(dom)))
+			c.Dels = append(c.Dels, jdel{File: r.IntN(nf+1) - 1, Min: a, Max: a + int64(r.IntN(10))})
+		}
+		c.Seeks = seeksFor(&c, r, 3)
+		return c
+	}
 }
